@@ -253,6 +253,7 @@ func finish(c *Ctx, spec *propSpec, tier string, start time.Time, extra map[stri
 		"exhaustive": true,
 		"checker_cmd": "/verif/bin/check " + c.prop + " " + tier,
 	}
+	cov["positive_controls"] = controlsSummary
 	for k, v := range extra {
 		cov[k] = v
 	}
